@@ -14,8 +14,9 @@
    PART 2  the registry caches that exist only inside `caching_context()` (registry/_caching_context.py):
      collection record cache (chain definitions) and collection summary cache, with the invalidation
      points as coded: a summary write clears the summary cache (/repo 72f8c65); setCollectionChain updates the
-     record cache but leaves the summary cache alone.  `chain_fix = true` is the candidate repair
-     (setCollectionChain also clears the summary cache). *)
+     record cache and clears the summary cache (/repo d43ed5b).  `chain_fix = true` is the code as it is;
+     `chain_fix = false` is the code before d43ed5b (setCollectionChain left the summary cache alone), used
+     only by the refutation witness. *)
 From Coq Require Import ZArith NArith List Bool.
 Import ListNotations.
 Open Scope Z_scope.
